@@ -18,6 +18,7 @@ package id
 
 import (
 	"context"
+	"sync"
 
 	json "github.com/bytedance/sonic"
 	"github.com/muyo/sno"
@@ -35,6 +36,9 @@ func GetSno() *Sno {
 type SnoGenerator struct {
 	*sno.Generator
 	tracer tracing.ITracer
+	// mu serialises New: sno.Generator.New is not safe for concurrent draws within one time unit
+	// (a draw can slip in between its wallHi update and its sequence reset and is then issued twice).
+	mu sync.Mutex
 }
 
 func (g *Sno) NewIdGenerator(ctx context.Context, tracer tracing.ITracer) (result IGenerator, err error) {
@@ -81,6 +85,8 @@ type SnoId struct {
 }
 
 func (g *SnoGenerator) New() Id {
+	g.mu.Lock()
+	defer g.mu.Unlock()
 	return &SnoId{ID: g.Generator.New(0)}
 }
 
